@@ -26,6 +26,7 @@ OPS = ["get1", "getv", "getmiss", "set1", "setv", "setvv", "fill", "contains", "
 FLOOR_TAGS = ["op:" + o for o in OPS] + ["init:scalar", "init:array", "mod:None", "mod:1", "mod:explicit", "keys:neg", "keys:big", "keys:dense", "keys:small",
                                          "kd:int8", "kd:uint64", "kd:list", "kd:int64", "state:scalar-at-first-write", "derived-table-used", "values:infinite"]
 FLOOR_MONITORS = ["c11:step", "c11:readback", "c11:keyset", "c11:must-refuse", "c11:caller-arrays"]
+FP_STRICT = True       # a floating-point event inside the library that the dense computation does not have is a violation (shard.FpMonitor)
 N_RANDOM = {"quick": 4000, "thorough": 100000}
 KD = ["int8", "int16", "int32", "int64", "uint8", "uint16", "uint32", "uint64", None]
 
